@@ -384,6 +384,9 @@ class TransformRunner(aggregates.Aggregatable, Iterable[_ValueT]):
     """Gets the result from the aggregation state."""
     result = tree.TreeMapView()
     for key, fn_state in state.items():
+      # The state of a chain also holds the aggregates of the other stages.
+      if key.metrics not in self.agg_fns:
+        continue
       outputs = self.agg_fns[key.metrics].get_result(fn_state)
       flattened_keys = key.metrics
       # Only convert str key to MetricKey format when there is slices.
